@@ -77,6 +77,7 @@ type Options struct {
 
 type Event struct {
 	Seq   int64
+	T     int64 // microseconds on the lab clock
 	Point string
 	Node  uint64
 }
@@ -172,7 +173,7 @@ func (l *Lab) hook(point string, node uint64) {
 		case "stab.done", "fix.done", "cp.done", "stab.read", "kv.found":
 		default:
 			l.evMu.Lock()
-			l.events = append(l.events, Event{Seq: l.evSeq.Add(1), Point: point, Node: node})
+			l.events = append(l.events, Event{Seq: l.evSeq.Add(1), T: mono() / 1000, Point: point, Node: node})
 			l.evMu.Unlock()
 		}
 	}
